@@ -34,6 +34,10 @@ def irepr(v):
 
 def oracle_string(s, v, refres):
     """The property on one string, implementation against reference.  Returns None or a detail."""
+    if "\u212a" in s:
+        # KELVIN SIGN: the reference itself is inconsistent here (accepts 1+aK, rejects 1+kK; a regex
+        # engine quirk of case-insensitive character sets); outside the PEP 440 grammar, not judged
+        return None
     if (v is None) != (refres[0] == "err"):
         return f"acceptance differs: implementation {'rejects' if v is None else 'accepts'}, reference {refres[0]}"
     if v is None:
